@@ -287,6 +287,42 @@ def new_api_probe(env):
     env.note("new setter-shaped functions %s could not be called from a generated program (no public path found)" % sorted(cands))
 
 
+def budget_probe(env):
+    """Hidden process-wide budgets: 70 000 contexts alive at once, 70 000 exports from one context, 70 000 failed receiver
+    setups in a row (a 16-bit slot table, use counter or lock-out) - the same setup must give the same result before,
+    during and after.  X25519 (fast) for all three, one NIST KEM for the live contexts."""
+    g = gen.G(env.rnd)
+    cw = cl.CaseW()
+    n = env.pick(70000, 300000)
+    plan = ((0x0020, ("live", "exports", "failed")),) if env.quick() else ((0x0020, ("live", "exports", "failed")), (0x0010, ("live", "failed")), (0x0012, ("exports",)))
+    for i, (kem, kinds) in enumerate(plan):
+        aead = (1, 3, 0xFFFF)[i % 3]
+        s = cw.session(kem, 1, aead, sid="bud%d" % i)
+        gen.add_keys(s, g, kem, "kR")
+        badenc = "00" * 32 if kem == 0x0020 else "04" + "00" * 64
+        for kind in kinds:
+            s.call("budget", kind=kind, n=n if kem == 0x0020 or kind != "live" else n // 10, pkr="$kR.pk", skr="$kR.sk", rng=g.raw(gen.nsk(kem)).hex() + "aa" * 8, badenc=badenc)
+    for b in ("checked", "checked-std"):
+        res = env.drive("budget", cw.text(), build=b, timeout=3600)
+        if res.timed_out:
+            env.inconclusive.append("budget probe: watchdog")
+            continue
+        for ss in res.sessions:
+            for o in (ss.all_ops or ss.ops):
+                if o.op != "budget":
+                    continue
+                env.count("evaluations", 1)
+                if o.ret is None or "ok" not in o.ret:
+                    env.violation("C18:budget:%s:%s" % (o.args["kind"], o.outcome()), "%s x %s: %s (%s build)" % (o.args["n"], o.args["kind"], o.outcome(), b), case_text=ss.case_text(o.id), workload="placement")
+                elif o.ret.get("mism") != "0":
+                    env.violation("C18:depends_on_process_history:%s" % o.args["kind"], "the same setup with the same RNG bytes gives a different result %s (%s; %s build)" % (
+                        {"live": "while / after %s other contexts are alive" % o.args["n"], "exports": "after %s exports from one context" % o.args["n"], "failed": "after %s failed receiver setups" % o.args["n"]}[o.args["kind"]],
+                        o.ret.get("first"), b), case_text=ss.case_text(o.id), workload="placement")
+                else:
+                    env.seen(("budget", ss.ids[0], o.args["kind"], b))
+                    env.count("budget_probe:%s" % o.args["kind"], int(o.args["n"]))
+
+
 def key_mill(env):
     """Process lifetime as a hidden input: 2^32 (minus a window) private-key objects are constructed and dropped on one
     thread, then 80 remembered keys are parsed afresh and their public keys recomputed - a 32-bit object id or
@@ -656,6 +692,7 @@ def run(env):
     teardown_probe(env)
     reentrant_rng_probe(env)
     new_api_probe(env)
+    budget_probe(env)
     stext = build_storm(env, env.pick(1, 6)).text()
     for b in ("checked", "checked-std", "checked-noalloc"):
         rs = env.drive("storm", stext, build=b)
